@@ -207,6 +207,45 @@ pub fn cli_unit(ctx: &Ctx, rng: &mut Rng, o: &mut Out) {
       }
     }
   }
+  // contextual patterns through the command line: `run -p CONTEXT --selector KIND --strictness S`
+  // against `Pattern::contextual(..).with_strictness(S)` of the library
+  let ctx_cases = if ctx.thorough { 12 } else { 3 };
+  for src in &sources {
+    let grep = src.lang.ast_grep(&src.text);
+    let root = grep.root();
+    let ext = src.name.rsplit('.').next().unwrap_or("txt");
+    let file = dir.path().join(format!("f.{ext}"));
+    std::fs::write(&file, &src.text).unwrap();
+    let cands: Vec<N> = root.dfs().filter(|n| n.is_named() && n.range().len() > 0 && n.range().len() <= 50 && !n.text().contains('\n') && n.children().len() > 0).collect();
+    for _ in 0..ctx_cases {
+      if cands.is_empty() {
+        break;
+      }
+      let cn = rng.pick(&cands);
+      let Some(sel) = cn.dfs().skip(1).filter(|d| d.is_named() && !d.kind().is_empty() && d.kind() != "ERROR").last() else { continue };
+      let text = cn.text().to_string();
+      let selector = sel.kind().to_string();
+      let Ok(pat) = Pattern::contextual(&text, &selector, src.lang) else { continue };
+      for (sname, mk) in STRICT {
+        let p = pat.clone().with_strictness(mk());
+        let lib: Vec<(usize, usize)> = root.find_all(&p).map(|nm| (nm.range().start, nm.range().end)).collect();
+        let out = run_cli(&exe, &["run", &format!("--pattern={text}"), "--selector", &selector, "-l", &lang_name(src.lang), "--strictness", sname, "--json=stream", file.to_str().unwrap()], 20);
+        cases += 1;
+        let cli: Option<Vec<(usize, usize)>> = out.ok().map(|stdout| {
+          stdout.lines().filter(|l| !l.trim().is_empty()).filter_map(|l| serde_json::from_str::<Value>(l).ok()).map(|v| (v["range"]["byteOffset"]["start"].as_u64().unwrap_or(0) as usize, v["range"]["byteOffset"]["end"].as_u64().unwrap_or(0) as usize)).collect()
+        });
+        if cli.as_ref() != Some(&lib) {
+          let unnamed_literal = !p.fixed_string().is_empty() && matches!(sname, "cst" | "smart");
+          o.oracle(
+            "cli-run",
+            false,
+            json!({"fp": format!("cli-run --selector differs from library search strictness={sname} unnamed-literal={unnamed_literal}"),
+                   "pattern": text, "selector": selector, "lang": lang_name(src.lang), "file": src.name, "cli": cli.map(|c| c.len()), "lib": lib.len()}),
+          );
+        }
+      }
+    }
+  }
   // token-dropped files: the pattern is a node's own text, the FILE is that text with one unnamed
   // token (nested at least two levels down) left out — kept only when the shortened text still
   // parses and the library still finds the pattern in it under `ast` (optional modifiers such as
